@@ -828,9 +828,11 @@ def fixup_resize(op: Operation, arch, nng) -> Operation:
     """Fixup resize ops to increase support for ResizeNearestNeighbor cases."""
     if op.type.is_resize_op() and op.run_on_npu:
         if op.ifm_shapes[0] == op.ofm_shapes[0]:
-            # Bypass the resize op which is essentially a NOP
+            # Bypass the resize op which is essentially a NOP, in the way memory only operators are bypassed so that
+            # its OFM (possibly an output of the network) is kept
             op.inputs = op.inputs[:1]
             op.type = Op.Identity
+            op = bypass_memory_only_ops(op, arch, nng)
         elif op.ifm_shapes[0].height == 1 and op.ifm_shapes[0].width == 1:
             convert_resize_1x1_to_add(op)
         elif op.type == Op.ResizeBilinear and op.attrs.get("half_pixel_centers", False):
